@@ -151,6 +151,10 @@ def run_subtotal_case(case):
         population, late = cc.late_reads({"response": case["response"], "transforms": None,
                                           "k": 1000 * int(case.get("k", 0)) + k},
                                          ["column_index"], {"column_index": r}, transforms=None, k=k)
+        for nm, a, b in cc.warnings_as_errors({"response": case["response"], "transforms": None},
+                                              ["column_index"], transforms=None, k=k)[:1]:
+            fails.append({"what": "column_index differs when warnings are errors", "normal": a,
+                          "warnings_as_errors": b, "partition": k})
         for nm, a, b, culprits in late[:1]:
             fails.append({"what": "column_index depends on what was read before", "fresh": a,
                           "after_other_reads": b, "population": population, "partition": k,
